@@ -487,7 +487,7 @@ class RaggedView2:
 
     def col_slice(self, col_slice):
         if isinstance(col_slice, Number):
-            idx = col_slice
+            idx = int(col_slice)  # a narrow numpy scalar would overflow in idx*col_step
             if len(self.lengths) and (idx >= np.min(self.lengths) or idx < -np.min(self.lengths)):
                 raise ValueError(f'Column index {idx} is out of bounds for shape {self}')
             if idx >= 0:
